@@ -619,7 +619,7 @@ pub fn gen(rng: &mut Rng, thorough: bool, out: &mut Vec<String>) {
     }
 
     // ---- (2) synthetic proofs of every height up to the maximum, accepted ones and mutants
-    let rounds = if thorough { 6000 } else { 420 };
+    let rounds = if thorough { 4000 } else { 420 };
     for r in 0..rounds {
         let h = match rng.below(10) {
             0 => 0,
